@@ -411,6 +411,19 @@ def check_retention(case):
     if per_request:
         for _ in range(3):
             one()
+    if not per_request:
+        # with the automatic collector off (a host that calls gc.disable() or gc.freeze()), what an evaluation leaves in reference cycles stays: there must be none
+        gc.collect()
+        gc.disable()
+        try:
+            for _ in range(N):
+                one()
+            found = gc.collect()
+        finally:
+            gc.enable()
+        if found >= N:
+            raise Violation('%d evaluations of %r (debug=%r) with the cyclic collector off left %d objects that only a collection could free (reference cycles: %.0f per evaluation)' % (N, f, debug, found, found / float(N)),
+                            {'cyclic garbage': found}, 'none')
     s0 = snap()
     for _ in range(N):
         one()
@@ -438,7 +451,7 @@ ENV_FORMULAS = ['DATE(2020,1,1)+1', 'N(DATE(2019,7,1))', 'DATEVALUE("2023-06-23"
                 'DATE(2019,3,31)-DATE(2019,3,30)', 'DATE(2019,10,27)-DATE(2019,10,26)', 'EDATE(DATE(2019,3,31),-1)', 'WEEKDAY(DATE(2019,3,10))', 'DATE(1990,4,1)=32964', 'DATEDIF(DATE(2019,1,31),DATE(2019,10,27),"d")', 'TIME(1,30,0)+DATE(2019,3,31)',
                 '1+1', 'TEXT(1234.5,"#,##0.00")', 'TEXT(0.25,"0%")', 'UPPER("stra\u00dfe")&LOWER("\u0130")', 'SUM(1,2)&"x"', '"b">"a"', '"\u00e4">"z"', '"a"<"B"', 'ROUND(2.5,0)&ROUND(0.125,2)', '1/3&""', '1e21&""', 'VALUE("1,5")', 'VALUE("1.5")',
                 'FIXED(1234.567)', 'DOLLAR(1234.567)', 'CONCATENATE(1.5,TRUE)', 'MATCH("b*",{"Alpha","BETA","bravo"},0)', 'COUNTIF({"a","B","b"},"b")', 'PROPER("hello wORLD")', 'LEN("\U0001f600")', 'CODE("\u00e9")', 'CHAR(233)',
-                'SUM({1,2;3,4})', 'IF(1<2,"x","y")', '1+', 'nosuch', '2^0.5', 'SQRT(2)', 'EXP(1)', 'FACT(20)', 'DEC2HEX(-1)', 'ROMAN(1994)', 'MOD(-7,3)', 'v_d+1', 'N(v_d)', 'v_s&"!"']
+                'SUM({1,2;3,4})', 'IF(1<2,"x","y")', '1+', 'nosuch', 'WEEKDAY("no date")', 'TIMEVALUE(NA())', 'DEGREES(1)', 'LEFT(1,2,3,4)', '2^0.5', 'SQRT(2)', 'EXP(1)', 'FACT(20)', 'DEC2HEX(-1)', 'ROMAN(1994)', 'MOD(-7,3)', 'v_d+1', 'N(v_d)', 'v_s&"!"']
 ENVIRONMENTS = [{'TZ': 'CET-1CEST,M3.5.0,M10.5.0/3'}, {'TZ': 'EST5EDT,M3.2.0,M11.1.0'}, {'TZ': 'LHST-10:30LHDT-11,M10.1.0,M4.1.0'}, {'TZ': 'IST-5:30'}, {'PYTHONWARNINGS': 'error'}, {'PYTHONWARNINGS': 'error::DeprecationWarning'},
                 {'LC_ALL': 'POSIX', 'LANG': 'POSIX'}, {'LC_ALL': 'C.UTF-8', 'LANG': 'C.UTF-8'}, {'PYTHONHASHSEED': '12345'}, {'PYTHONHASHSEED': '1'}, {'PYTHONDEVMODE': '1'}, {'PYTHONUTF8': '0', 'LC_ALL': 'C'}, {'PYTHONUTF8': '1'},
                 {'PYTHONINTMAXSTRDIGITS': '640'}, {'PYTHONMALLOC': 'debug'}, {'TZ': 'Pacific/Apia'}, {'TZ': 'America/St_Johns', 'PYTHONWARNINGS': 'error'}]
@@ -557,7 +570,7 @@ LAWS = [
         rule='1-4 of 75 formulas that push host lists (variable values flat and nested, a listener-served range and cell value, arguments handed to and a list returned by custom functions) through array arithmetic, array literals, omitted-slot calls, '
              'every aggregate, LARGE/MEDIAN/INDEX/MATCH/TEXTJOIN/CONCATENATE/SUMIFS...: afterwards every host list is deep-equal to its copy and consists of the very same list objects'),
     Law('process_environment', check_env, enumerate=enum_env, shards=(16, 16), guard=400, key=lambda c: 'process-environment',
-        rule='52 formulas (dates and serials, text of dates, number formats, case mapping, text order, rounding, wildcard lookups, literals, failing formulas, host date and text variables) are evaluated in a brand-new interpreter '
+        rule='56 formulas (dates and serials, text of dates, number formats, case mapping, text order, rounding, wildcard lookups, literals, failing formulas, host date and text variables) are evaluated in a brand-new interpreter '
              'under TZ=UTC and under each of 17 other process environments (four time zones given as POSIX rules and two by name, warnings turned into errors, POSIX / C.UTF-8 locale variables, other hash seeds, development mode, UTF-8 mode off and on, '
              'a low integer-digit limit, the debug allocator): every outcome is the same, and the library must be usable at all'),
     Law('order_independence', check_order, strategy=order_case, quick=170, thorough=12000, shards=(16, 16), key=lambda c: '', guard=400,
@@ -569,7 +582,7 @@ LAWS = [
         quick=200, thorough=4000, shards=(16, 16), shrink=False,
         classes=lambda c: ('debug:%s' % c['debug'], 'n%d' % c['n'], 'parser-per-evaluation' if c.get('per_request') else 'one-parser'), required=('debug:True', 'debug:False', 'n50', 'n200', 'parser-per-evaluation'),
         rule='one of 32 formulas (mostly failing: lexical, syntax, run-time, raised by aggregates, raised by host callbacks, trapped by IFERROR) evaluated 5 times to warm up and then N = 50 or 200 more times, on one parser or (a third of the cases) each on a parser of its own that is dropped afterwards: '
-             'growth of gc-tracked objects, of live traceback/frame objects < N/2, of allocated memory blocks (sys.getallocatedblocks; debug off only) < N, growth of the bytes reachable from the parser and the hotxlfp/ply modules < 4N, each in the smaller of two consecutive windows of N, traceback chains of the nine shared error objects do not grow'),
+             'growth of gc-tracked objects, of live traceback/frame objects < N/2, of allocated memory blocks (sys.getallocatedblocks; debug off only) < N, growth of the bytes reachable from the parser and the hotxlfp/ply modules < 4N, each in the smaller of two consecutive windows of N; with the cyclic collector switched off N evaluations leave fewer than N objects in reference cycles (none, on this tree), traceback chains of the nine shared error objects do not grow'),
 ]
 
 LEVEL_TEXT = 'Hypothesis exploration of evaluation histories (model: a fresh parser with the same bindings, plus fixed facts), of evaluation order across brand-new interpreter processes (reaches module-level state that an in-process oracle would share), of host-list integrity by value and by object identity, and of object retention over repeated evaluations, for both debug settings.'
